@@ -432,6 +432,17 @@ var safeLetters = func() []rune {
 // rune would take it for white space, a quote, an operator ...) plus a sample.
 func letterCases() []SpellCase {
 	var out []SpellCase
+	// identifier-continue characters that are not letters: combining marks (Mn, Mc), decimal digits of
+	// other scripts (Nd), connector punctuation (Pc) - all XID_Continue, after a letter
+	for _, w := range []string{"नाम", "cafe\u0301", "น้ำ", "தமிழ்", "a\u0663", "a\u203fb", "é\u0300x", "ক্ষ", "한\u0301", "x\u0e31y", "a\u0966", "q\u20d7"} {
+		key := func(k string) *Path { return &Path{Root: &Node{K: KRoot, Next: &Node{K: KKey, S: k}}} }
+		out = append(out,
+			SpellCase{Path: key(w), Text: "$." + w, Why: "identifier with combining marks / non-letter continue characters"},
+			SpellCase{Path: key(w + "z"), Text: "$ . " + w + "z", Why: "identifier with combining marks, letter after"},
+			SpellCase{Path: &Path{Root: &Node{K: KVar, S: w}}, Text: "$" + w, Why: "variable with combining marks"},
+			SpellCase{Path: &Path{Root: &Node{K: KBin, S: "==", A: &Node{K: KRoot, Next: &Node{K: KKey, S: w}}, B: &Node{K: KInt, I: 1}}}, Text: "$." + w + "==1", Why: "identifier with combining marks before an operator"},
+		)
+	}
 	for i, r := range safeLetters {
 		if r >= 0x4E00 {
 			lo := byte(r)
